@@ -232,6 +232,69 @@ def main(tier: str) -> int:
                 run.model_drift(f"{key}: event log is not a behaviour of PyPipeline ({v['verdict']} at event {v['at']})")
             if len(samples) < 2 and key["frame_size"] == 2:
                 samples.append({"key": key, "events": t["events"][:9]})
+    # ---- *_to_file entry points: "handed to the caller" = written to the caller's output object.  At every pull, the bytes the output has
+    #      received must be exactly the frames completed so far (as the frame generator yields them), for raw and duck-typed outputs
+    class RawLog(io.RawIOBase):
+        def __init__(self):
+            self.n = 0
+
+        def writable(self):
+            return True
+
+        def write(self, b):
+            self.n += len(b)
+            return len(b)
+
+    class DuckLog:
+        def __init__(self):
+            self.n = 0
+
+        def write(self, b):
+            self.n += len(b)
+            return len(b)
+
+    def fresh9(i, k):
+        return ("iri", f"http://w{i}-{k}.example/l{i}{k}")
+
+    tofile_runs = 0
+    for integ in ("generic", "rdflib"):
+        mod = __import__(f"pyjelly.integrations.{integ}.serialize", fromlist=["flat_stream_to_file"])
+        for ptype, fs in ((1, 1), (2, 3), (1, 4)):
+            stmts = [tuple(fresh9(i, k) for k in range(3 if ptype == 1 else 4)) for i in range(12)]
+            conv = (lambda st: terms.stmt_to_generic(st)) if integ == "generic" else (lambda st: impl.rdflib_statement(st))
+            cfg = impl.default_cfg(integ=integ, sclass=("triple" if ptype == 1 else "quad"), ltype=(1 if ptype == 1 else 2), frame_size=fs, preset=(4000, 150, 32),
+                                   gen=(integ == "generic"), star=(integ == "generic"))
+            # baseline: cumulative bytes of the frames yielded before each pull
+            base_log, done = [], {"bytes": 0}
+
+            def src_a(base_log=base_log, done=done):
+                for st in stmts:
+                    base_log.append(done["bytes"])
+                    yield conv(st)
+
+            for fr in mod.flat_stream_to_frames(src_a(), impl.make_options(cfg)):
+                b_ = io.BytesIO()
+                impl.write_delimited(fr, b_)
+                done["bytes"] += len(b_.getvalue())
+            for kind, out_ in (("RawIOBase", RawLog()), ("duck-typed", DuckLog())):
+                seen = []
+
+                def src_b(out_=out_, seen=seen):
+                    for st in stmts:
+                        seen.append(out_.n)
+                        yield conv(st)
+
+                tofile_runs += 1
+                try:
+                    mod.flat_stream_to_file(src_b(), out_, impl.make_options(cfg))
+                except Exception as ex:  # noqa: BLE001
+                    run.violation({"side": "write", "clause": "pipeline-raised", "integ": integ, "entry": "flat_stream_to_file", "output": kind}, f"{type(ex).__name__}: {ex}", {"frame_size": fs})
+                    continue
+                if seen != base_log:
+                    k = next(i for i, (a, b) in enumerate(zip(seen, base_log)) if a != b)
+                    run.violation({"side": "write", "clause": "frame-not-handed-over-before-next-pull", "integ": integ, "entry": "flat_stream_to_file", "output": kind},
+                                  f"at pull #{k + 1} the output object had received {seen[k]} bytes, but {base_log[k]} bytes of finished frames exist (frame_size {fs})",
+                                  {"frame_size": fs, "written_at_pull": seen, "frames_finished_at_pull": base_log})
     # ---- read side: the source stalls forever after frame j
     records, rmeta = [], []
     streams = []
@@ -285,7 +348,7 @@ def main(tier: str) -> int:
         samples.append({"read_side_records": len(records)})
     return run.finish({
         "states": states, "transitions": trans, "traces_validated_against_impl": wtraces + len(records), "samples": samples, "exhaustive": False,
-        "write_traces": wtraces, "read_records": len(records), "model_configurations": len(jobs),
+        "write_traces": wtraces, "to_file_runs": tofile_runs, "read_records": len(records), "model_configurations": len(jobs),
         "scope": "pull discipline asserted for TRIPLES and QUADS statement iterators (flat_stream_to_frames, stream_frames) of both integrations; "
                  "GRAPHS regroups its input by design (DESIGN.md 6, C11 scope)",
         "explanation": "spec/PyPipeline.tla: TLC checks the action properties BoundedBuffering, FrameBeforeInput, NoFurtherThanCompleting and termination of the write pipeline, "
